@@ -526,7 +526,8 @@ def gen_s1(rng, c, keys, digests, size, basic="B", used=None):
         if sz <= 1:
             r = rng.choice(["c:", "c:", "c:", "1", "0", "hash", "lock"])
         else:
-            r = rng.choice(["c:", "n:", "d:", "and_v", "and_b", "or_b", "or_d", "or_i", "andor", "1", "0", "hash", "lock"])
+            r = rng.choice(["c:", "n:", "d:", "j:", "and_v", "and_b", "or_b", "or_d", "or_i", "andor", "1", "0", "hash",
+                            "lock"])
         if r in ("0", "1"):
             return Miniscript(r, c)
         if r == "lock":
@@ -539,6 +540,10 @@ def gen_s1(rng, c, keys, digests, size, basic="B", used=None):
             return Miniscript("c:", c, (go("K", sz - 1),))
         if r == "n:":
             return Miniscript("n:", c, (go("B", sz - 1),))
+        if r == "j:":
+            inner = Miniscript("c:", c, (go("K", 1),)) if rng.random() < 0.6 else \
+                Miniscript("and_v", c, (Miniscript("v:", c, (Miniscript("c:", c, (go("K", 1),)),)), sub("B")))
+            return Miniscript("j:", c, (inner,))
         if r == "d:":
             return Miniscript("d:", c, (Miniscript("v:", c, (Miniscript("1", c),)),))
         if r == "and_v":
@@ -697,7 +702,7 @@ def run(ctx):
     exec_lines = []
     exec_cap = ctx.n(2500, 60000)
     S1 = {"0", "1", "pk_k", "pk_h", "older", "after", "sha256", "hash256", "ripemd160", "hash160", "c:", "v:", "a:", "s:",
-          "n:", "d:",
+          "n:", "d:", "j:",
           "and_v", "and_b", "or_b", "or_c", "or_d", "or_i", "andor"}
     for n in spend_nodes[:ctx.n(150, 3000)]:
         text = str(n)
@@ -794,8 +799,8 @@ def run(ctx):
                  + INSANE_SIZER[0])
         del INSANE_SIZER[:]
     ctx.note("T3/T4 are partial: covered_constructors = 0, 1, pk_k, pk_h, older, after, sha256, hash256, ripemd160, hash160, "
-             "c:, v:, a:, s:, n:, d:, and_v, and_b, or_b, or_c, or_d, or_i, andor (Props.C15.type_soundness_partial / "
-             "satisfaction_accepted_partial / satisfy_accepted_partial); not covered: j: multi multi_a thresh, the satisfier's choice and "
+             "a:, s:, c:, d:, v:, j:, n:, and_v, and_b, or_b, or_c, or_d, or_i, andor (Props.C15.type_soundness_partial / "
+             "satisfaction_accepted_partial / satisfy_accepted_partial); not covered: multi multi_a thresh, the satisfier's choice and "
              "the soundness of the static bounds (bounds tables: `bounds` stream; actual spends: `spend` oracle)")
     ctx.note(f"spend oracle: {produced} satisfactions produced and run through the real engine (p2wsh and tapscript)")
     for n in nodes:
